@@ -16,6 +16,22 @@ thread_local! {
     static FIRST_TEXT: std::cell::RefCell<HashMap<(String, String), String>> = std::cell::RefCell::new(HashMap::new());
 }
 
+/// a printed datum of 64 KiB or more becomes the token the trace uses for such data (real::hex_text); a text of that size
+/// that does not parse as dashed hex pairs stays as it is (and will not match)
+fn norm_data(text: String) -> String {
+    if text.len() < 3 * crate::real::BIG_FROM - 1 {
+        return text;
+    }
+    let mut bytes = Vec::with_capacity(text.len() / 3 + 1);
+    for part in text.split('-') {
+        match u8::from_str_radix(part, 16) {
+            Ok(b) if part.len() == 2 => bytes.push(b),
+            _ => return text,
+        }
+    }
+    crate::real::hex_text(&bytes)
+}
+
 #[derive(Debug, Clone, PartialEq)]
 pub struct Facts {
     pub nodes: Vec<usize>,
@@ -86,7 +102,7 @@ pub fn parse_xml(xml: &str) -> Facts {
                     let t = text.trim();
                     // the export prints bytes separated by blanks; "--" stands for the empty byte string
                     let hex = if t == "  " || t.is_empty() || t == "--" { "--".to_string() } else { t.replace(' ', "-") };
-                    f.data.push((id, hex));
+                    f.data.push((id, norm_data(hex)));
                 }
                 _ => return Facts::bad("unexpected element under <v>"),
             }
@@ -113,7 +129,7 @@ pub fn parse_dot(dot: &str) -> Facts {
                 f.nodes.push(id);
                 if let Some(p) = l.find("/* ") {
                     let d = l[p + 3..].trim_end_matches("*/").trim();
-                    f.data.push((id, d.to_string()));
+                    f.data.push((id, norm_data(d.to_string())));
                     if !l.contains("color=\"#f96900\"") {
                         return Facts::bad("data comment without the data colour");
                     }
@@ -165,7 +181,7 @@ pub fn parse_debug(text: &str) -> Facts {
                 let Ok(t) = e[p + " ➞ ν".len()..].parse::<usize>() else { return Facts::bad("bad target in Debug") };
                 f.edges.push((v, e[..p].to_string(), t));
             } else {
-                f.data.push((v, part.to_string()));
+                f.data.push((v, norm_data(part.to_string())));
             }
         }
         rest = &tail[body_start + end..];
@@ -447,13 +463,15 @@ pub fn observe_all(w: &World, h: usize, tid: usize, what: &[String], out: &mut d
             if idx % every != 0 {
                 continue;
             }
-            let parsed = match w.g(h).inspect(v) {
+            let res = w.g(h).inspect(v);
+            let panicked = res.is_err();
+            let parsed = match res {
                 Ok(Ok(t)) => parse_inspect(&t, v),
                 _ => None,
             };
             let e = match parsed {
-                Some(es) => json!({"op": "inspect", "v": v, "edges": es.iter().map(|(u, a, t)| json!([u, a, t])).collect::<Vec<_>>(), "wellformed": true}),
-                None => json!({"op": "inspect", "v": v, "edges": [], "wellformed": false}),
+                Some(es) => json!({"op": "inspect", "v": v, "edges": es.iter().map(|(u, a, t)| json!([u, a, t])).collect::<Vec<_>>(), "wellformed": true, "panicked": false}),
+                None => json!({"op": "inspect", "v": v, "edges": [], "wellformed": false, "panicked": panicked}),
             };
             emit(e, out);
             n += 1;
